@@ -1,9 +1,10 @@
 SPECIFICATION Spec
 CONSTANTS Widths = {2} MaxH = 2 MaxOwn = 2 CtrMax = 2
   LimbDom = {0, 1, 128, 255, 65535} IdWidths = {0, 1, 2, 3, 4, 5, 6, 7, 8, 9}
+  StreamWidths = {2}
   MsgDom <- CMsgDom TextDom <- CTextDom
 CONSTRAINT Bound
 VIEW View
 INVARIANTS TypeOK Refines
-PROPERTIES SendsRight Final Accepted RefusedAfter RejectKeeps DefaultOnRelease ArmFrame IdTiers
+PROPERTIES SendsRight Final Accepted RefusedAfter RejectKeeps DefaultOnRelease ArmFrame IdTiers StreamOnce
 CHECK_DEADLOCK FALSE
